@@ -4,6 +4,7 @@ import BigtreeProofs.Lemmas.ModifyEdit
 import BigtreeProofs.Lemmas.ModifyMerge
 import BigtreeProofs.Lemmas.ModifyReplace
 import BigtreeProofs.Lemmas.ModifyLeaves
+import BigtreeProofs.Lemmas.ModifyFrame
 /-!
 # C08 — shift / copy / replace perform exactly the documented edit and nothing else
 
@@ -1028,5 +1029,73 @@ example : replaceNodes (cfgOf false false false false false false true) (st0 exR
     = .ok (st0 (.node 0 ['a'] [] [.node 5 ['q'] [] [], .node 4 ['y'] [] [], .node 1 ['x'] [] [],
         .node 7 ['z'] [] []]) 8) := by
   decide +kernel
+
+/-! ## the frame, for EVERY flag combination
+
+"Nodes not addressed by the edit keep their identity, path, order and attributes" — one theorem for all
+2⁷ settings of copy / skippable / overriding / merge_children / merge_leaves / delete_children /
+with_full_path, for same-tree and tree-to-tree calls, for every tree (no hypothesis on names or
+separators): the pre-order entry list (path, object identity, attributes) of the old destination tree,
+restricted to the entries that lie neither below the from-node (same-tree call) nor below the existing
+destination, is a **sublist** of the entry list of the result. -/
+
+/-- one step of the loop -/
+theorem frame_all_flags_step (cfg : Cfg) (st st' : St) (pr : Str × Option Str) (fp : List Str) (F : Tree)
+    (hres : resolveFrom cfg st pr.1 = .ok (some (fp, F))) (h : step cfg st pr = .ok st') :
+    ((flat st.dst).filter (fun e =>
+      !touched (if st.src.isNone then some fp else none) (destHandle cfg st pr.2) e)).Sublist
+      (flat st'.dst) :=
+  Modify.step_sub hres h
+
+/-- the public single-pair call `shift_nodes / copy_nodes / copy_nodes_from_tree_to_tree (…, [from], [to])` -/
+theorem frame_all_flags (cfg : Cfg) (st st' : St) (pr : Str × Option Str) (fp : List Str) (F : Tree)
+    (hres : resolveFrom cfg st (norm cfg pr).1 = .ok (some (fp, F)))
+    (h : copyOrShift cfg st [pr] = .ok st') :
+    ((flat st.dst).filter (fun e =>
+      !touched (if st.src.isNone then some fp else none) (destHandle cfg st (norm cfg pr).2) e)).Sublist
+      (flat st'.dst) := by
+  unfold copyOrShift at h
+  split at h
+  · simp only [List.map_cons, List.map_nil, loop] at h
+    cases hs : step cfg st (norm cfg pr) with
+    | error e => rw [hs] at h; simp at h
+    | ok s1 =>
+      rw [hs] at h; simp only [Except.ok.injEq] at h; subst h
+      exact Modify.step_sub hres hs
+  · simp at h
+
+/-- … in particular every such node is still there, with the same path, identity and attributes -/
+theorem frame_all_flags_mem (cfg : Cfg) (st st' : St) (pr : Str × Option Str) (fp : List Str) (F : Tree)
+    (hres : resolveFrom cfg st (norm cfg pr).1 = .ok (some (fp, F)))
+    (h : copyOrShift cfg st [pr] = .ok st') (e : Entry) (he : e ∈ flat st.dst)
+    (hout : touched (if st.src.isNone then some fp else none) (destHandle cfg st (norm cfg pr).2) e = false) :
+    e ∈ flat st'.dst :=
+  (frame_all_flags cfg st st' pr fp F hres h).subset (List.mem_filter.2 ⟨he, by rw [hout]; rfl⟩)
+
+/-! non-vacuity on a flag combination no single-flag theorem covers: copy + merge_children +
+delete_children onto the existing `/r/b/a` of `r(a(x, y), b(a(z)), c)` -/
+
+def exTree3 : Tree :=
+  .node 0 ['r'] [] [.node 1 ['a'] [] [.node 2 ['x'] [(['k'], .int 7)] [.node 8 ['w'] [] []], .node 3 ['y'] [] []],
+                    .node 4 ['b'] [] [.node 5 ['a'] [] [.node 6 ['z'] [] []]],
+                    .node 7 ['c'] [] []]
+
+example : resolveFrom (cfgOf true false false true false true true) (st0 exTree3 9)
+      (norm (cfgOf true false false true false true true)
+        (pathStr '/' ['r'] [['a']], some (pathStr '/' ['r'] [['b'], ['a']]))).1
+    = .ok (some ([['a']], .node 1 ['a'] [] [.node 2 ['x'] [(['k'], .int 7)] [.node 8 ['w'] [] []], .node 3 ['y'] [] []])) := by
+  decide +kernel
+
+example : copyOrShift (cfgOf true false false true false true true) (st0 exTree3 9)
+      [(pathStr '/' ['r'] [['a']], some (pathStr '/' ['r'] [['b'], ['a']]))]
+    = .ok (st0 (.node 0 ['r'] [] [
+        .node 1 ['a'] [] [.node 2 ['x'] [(['k'], .int 7)] [.node 8 ['w'] [] []], .node 3 ['y'] [] []],
+        .node 4 ['b'] [] [.node 5 ['a'] [] [.node 6 ['z'] [] [], .node 10 ['x'] [(['k'], .int 7)] [], .node 12 ['y'] [] []]],
+        .node 7 ['c'] [] []]) 13) := by
+  decide +kernel
+
+-- the entries outside `/r/a` and `/r/b/a`: the root, `b`, `c`
+example : (flat exTree3).filter (fun e => !touched (some [['a']]) (some [['b'], ['a']]) e)
+    = [([], 0, []), ([['b']], 4, []), ([['c']], 7, [])] := by decide +kernel
 
 end C08
